@@ -395,7 +395,7 @@ func c14Check(m c14Model, rec *ev.Recorder) []harness.Viol {
 				return nil
 			}
 			viols = append(viols, harness.Viol{Signature: "C14:cli-crash:" + crashSite(res.Output()),
-				Message: fmt.Sprintf("`gleece %s` crashed (exit %d): %s", name, res.Exit, tailStr(res.Output(), 1800))})
+				Message: fmt.Sprintf("`gleece %s` crashed (exit %d): %s ... %s", name, res.Exit, panicLines(res.Output()), tailStr(res.Output(), 1200))})
 			return viols
 		}
 		if res.Exit == 0 {
@@ -416,6 +416,21 @@ func c14Check(m c14Model, rec *ev.Recorder) []harness.Viol {
 		}
 	}
 	return viols
+}
+
+// panicLines extracts the panic message and the first frames from a crash dump.
+func panicLines(out string) string {
+	lines := strings.Split(out, "\n")
+	for i, l := range lines {
+		if strings.HasPrefix(l, "panic:") || strings.HasPrefix(l, "fatal error:") {
+			end := i + 8
+			if end > len(lines) {
+				end = len(lines)
+			}
+			return strings.Join(lines[i:end], " | ")
+		}
+	}
+	return ""
 }
 
 // crashSite names the first gleece frame of a goroutine dump (stable across inputs).
